@@ -103,6 +103,77 @@ def attr_response(r1: int, r2: int, expired: bool, recip: int, conv: bool):
     return ok, acc | (not need), "accepted=%s exc=%r" % (acc, exc)
 
 
+# ---- two SP clients in one process (client level, really parsed documents) --------------------
+import base64 as _b64                                          # noqa: E402
+from harness import fixtures as _F                             # noqa: E402
+from harness.spfix import StubBackend as _SB                   # noqa: E402
+from saml2_tophat import BINDING_HTTP_POST as _POST            # noqa: E402
+_SPS = [_F.mk_client(), _F.mk_client(_F.sp_conf(entityid=_F.SP2_ID, acs_post=_F.ACS2_POST, acs_redirect=None))]
+_SPIDS = [_F.SP_ID, _F.SP2_ID]
+_SPACS = [_F.ACS_POST, _F.ACS2_POST]
+for _c in _SPS:
+    _c.sec.crypto = _SB()
+    _c.sec.crypto.verdict = {}
+_CK2 = Clock(1000000)
+
+
+def _wire(sp, dest_of, recip_of):
+    t = _CK2.stamp(1, 1000000)
+    nooa = _CK2.stamp(2, 1000600)
+    a = mk_assertion(t, {"not_on_or_after": nooa, "audiences": [[_SPIDS[sp]]]},
+                     {"not_on_or_after": nooa, "in_response_to": REQ_ID, "recipient": _SPACS[recip_of]}, {}, issuer=_F.IDP_ID,
+                     attrs=[saml.Attribute(name="urn:oid:2.5.4.42", name_format=saml.NAME_FORMAT_URI, friendly_name="givenName",
+                                           attribute_value=[saml.AttributeValue(text="alice")])])
+    r = mk_response(t, [a], destination=_SPACS[dest_of], issuer=_F.IDP_ID)
+    return _b64.b64encode(("%s" % r).encode("utf-8")).decode("ascii")
+
+
+_WIRES = {(sp, d, r): _wire(sp, d, r) for sp in (0, 1) for d in (0, 1) for r in (0, 1)}
+
+
+def two_sps(first: int, dest_of: int, recip_of: int, conv: bool):
+    """Two service providers with different endpoints live in one process.  After the first has
+    handled a response of its own, the second accepts a response only if Destination (and, with
+    conversation information, Recipient) name *its own* endpoint."""
+    from veriflib.boot import concrete
+    from veriflib import timemodel
+    from saml2_tophat.population import Population
+    first, dest_of, recip_of, conv = concrete(first), concrete(dest_of), concrete(recip_of), concrete(conv)
+    second = 1 - first
+    timemodel.set_clock(1000000, _CK2.tab)
+    for c in _SPS:
+        c.want_response_signed = False
+        c.users = Population()
+    ok = True
+    try:
+        r1 = _SPS[first].parse_authn_request_response(_WIRES[(first, first, first)], _POST, {REQ_ID: "/"})
+        ok = r1 is not None and bool(r1.ava)
+    except Exception:
+        ok = False
+    acc = False
+    exc = None
+    try:
+        r2 = _SPS[second].parse_authn_request_response(_WIRES[(second, dest_of, recip_of)], _POST, {REQ_ID: "/"},
+                                                      conv_info={"remote_addr": "0.0.0.0", "entity_id": _SPIDS[second]} if conv else None)
+        acc = r2 is not None and bool(r2.ava)
+    except Exception as e:
+        exc = e
+    expect = (dest_of == second) and ((not conv) or recip_of == second)
+    return ok and (acc == expect), True, "first_ok=%s second=%s expected=%s exc=%r" % (ok, acc, expect, exc)
+
+
+from harness import c17 as _c17        # noqa: E402  (fixtures must be built at import, outside the trace)
+
+
+def decrypted(m: int, signed: bool, unsol: bool):
+    """The solicitation / audience clauses on an assertion that arrives encrypted (same fixture
+    and oracle as C17's SP side: m = 1 audience names another SP, 3 bearer confirmation names
+    another request, 6 response answers an unknown request)."""
+    from veriflib.boot import concrete
+    m = [0, 1, 3, 6][concrete(m)]
+    return _c17.sp_side(m, True, signed, True, 0, False, unsol)
+
+
 def dest_string(has_dest: bool, dest: str, irt: int, unsol: bool):
     """Destination is a symbolic string compared by the real code with the SP's endpoint list."""
     acc, exc, ar = _run(irt, 0, dest if has_dest else None, 1, 0, 0, unsol, True, False, False, 0, 0, validate=False)
@@ -142,6 +213,16 @@ CONDITIONS = [
          partitions={"quick": [{"r1": a} for a in range(len(AUDS))]}, timeout={"quick": 600, "thorough": 900}, path_timeout=60,
          functions=["response.AttributeResponse (AuthnResponse.loads/verify with context AttrQuery)", "response.for_me", "response.AuthnResponse.condition_ok/get_subject/verify_recipient"],
          bounds="attribute responses: 0-2 AudienceRestrictions from the 5 shapes, Conditions expired or not, 5 Recipients, conversation information present/absent"),
+    Cond(name="decrypted", fn="decrypted", params=[("m", "int"), ("signed", "bool"), ("unsol", "bool")], pre=["0 <= m <= 3"],
+         partitions={"quick": [{"m": k} for k in range(4)]}, timeout={"quick": 900, "thorough": 1200}, path_timeout=180,
+         functions=["response.AuthnResponse.parse_assertion (decrypt branch)", "response.AuthnResponse.check_subject_confirmation_in_response_to", "response.AuthnResponse._assertion"],
+         bounds="encrypted assertion whose content is conforming / addressed to another audience / confirms another request / answers an unknown request; allow_unsolicited on/off"),
+    Cond(name="two_sps", fn="two_sps", params=[("first", "int"), ("dest_of", "int"), ("recip_of", "int"), ("conv", "bool")],
+         pre=["0 <= first <= 1", "0 <= dest_of <= 1", "0 <= recip_of <= 1"],
+         partitions={"quick": [{"first": 0}, {"first": 1}]}, timeout={"quick": 900, "thorough": 1200}, path_timeout=180,
+         functions=["client_base.Base.parse_authn_request_response", "client_base.Base.service_urls", "config.Config.endpoint", "entity.Entity._parse_response"],
+         bounds="two Saml2Client objects with different ACS endpoints in one process, either one handling a response first; the other one's response addressed "
+                "(Destination, Recipient) to either SP's endpoint, with / without conversation information"),
     Cond(name="dest_string", fn="dest_string",
          params=[("has_dest", "bool"), ("dest", "str"), ("irt", "int"), ("unsol", "bool")],
          pre=["0 <= irt < 3", "len(dest) <= 40"],
